@@ -1,182 +1,6 @@
 #!/venv/bin/python
-"""Mutation sweep (development aid + thorough-tier evidence): generate first-order AST mutants of the functions a property
-is anchored in, run the property's check on each (scratch copy, nothing of the mutant is executed) and classify
-  VIOLATION   the check reports it
-  ERROR       exit 2 (shape not recognised / anchor vanished): not a silent pass, not an alarm
-  SILENT      the check still says the property holds -> either an equivalent mutant, a mutant outside the property's clauses,
-              or a hole in the check: these are listed for manual triage
-usage: tools/mutsweep.py <PID> --funcs mod.func,mod.func [--jobs 16] [--limit N] [--json out.json]
-"""
-import ast, copy, json, os, shutil, subprocess, sys, tempfile
-from concurrent.futures import ProcessPoolExecutor
-VERIF = os.path.dirname(os.path.dirname(os.path.abspath(__file__)))
-sys.path.insert(0, VERIF)
-REPO = os.environ.get("TMVERIF_REPO", "/repo")
-
-CMP = {ast.Lt: ast.LtE, ast.LtE: ast.Lt, ast.Gt: ast.GtE, ast.GtE: ast.Gt, ast.Eq: ast.NotEq, ast.NotEq: ast.Eq}
-
-
-def mutants_of(func):
-    """yield (description, mutate(tree_copy_func) in place) for one FunctionDef"""
-    out = []
-    nodes = list(ast.walk(func))
-    for idx, n in enumerate(nodes):
-        if isinstance(n, ast.Compare) and len(n.ops) == 1 and type(n.ops[0]) in CMP:
-            out.append(("cmp %s -> %s @%d `%s`" % (type(n.ops[0]).__name__, CMP[type(n.ops[0])].__name__, n.lineno, ast.unparse(n)[:50]),
-                        ("cmp", idx)))
-        if isinstance(n, ast.BinOp) and isinstance(n.op, (ast.Add, ast.Sub)) and isinstance(n.right, ast.Constant) \
-                and isinstance(n.right.value, int) and not isinstance(n.right.value, bool) and n.right.value in (1, 2):
-            out.append(("drop %s%d @%d `%s`" % ("+" if isinstance(n.op, ast.Add) else "-", n.right.value, n.lineno, ast.unparse(n)[:50]), ("dropconst", idx)))
-        if isinstance(n, ast.BinOp) and isinstance(n.op, (ast.Add, ast.Sub)) and not (isinstance(n.right, ast.Constant)):
-            out.append(("swap +/- @%d `%s`" % (n.lineno, ast.unparse(n)[:50]), ("swapop", idx)))
-        if isinstance(n, ast.BoolOp) and len(n.values) == 2:
-            out.append(("drop 2nd operand of %s @%d `%s`" % (type(n.op).__name__, n.lineno, ast.unparse(n)[:50]), ("dropbool", idx)))
-        if isinstance(n, ast.Slice):
-            for which in ("lower", "upper"):
-                b = getattr(n, which)
-                if b is not None and not (isinstance(b, ast.Constant) and b.value is None):
-                    out.append(("slice %s + 1 @%d `%s`" % (which, getattr(b, "lineno", 0), ast.unparse(n)[:40]), ("slice+1", idx, which)))
-        if isinstance(n, ast.Call) and isinstance(n.func, ast.Name) and n.func.id in ("range", "trange", "prange") and n.args:
-            out.append(("range end - 1 @%d `%s`" % (n.lineno, ast.unparse(n)[:50]), ("range-1", idx)))
-            out.append(("range end + 1 @%d `%s`" % (n.lineno, ast.unparse(n)[:50]), ("range+1", idx)))
-        if isinstance(n, (ast.Assign, ast.AugAssign, ast.Expr)) and not (isinstance(n, ast.Expr) and isinstance(n.value, ast.Constant)):
-            out.append(("delete stmt @%d `%s`" % (n.lineno, ast.unparse(n).split("\n")[0][:60]), ("delete", idx)))
-        if isinstance(n, ast.If) and not n.orelse and any(isinstance(b, (ast.Raise, ast.Continue, ast.Break, ast.Return)) for b in n.body):
-            out.append(("delete guard @%d `if %s`" % (n.lineno, ast.unparse(n.test)[:50]), ("delete", idx)))
-        if isinstance(n, ast.keyword) and isinstance(n.value, ast.Constant) and isinstance(n.value.value, bool):
-            out.append(("flip %s=%s @%d" % (n.arg, n.value.value, n.value.lineno), ("flipbool", idx)))
-        if isinstance(n, ast.Subscript) and isinstance(n.slice, ast.Tuple) and len(n.slice.elts) >= 2 and isinstance(n.ctx, (ast.Load, ast.Store)):
-            out.append(("swap first two indices @%d `%s`" % (n.lineno, ast.unparse(n)[:50]), ("swapidx", idx)))
-    return out
-
-
-def apply(func, spec):
-    nodes = list(ast.walk(func))
-    kind, idx = spec[0], spec[1]
-    n = nodes[idx]
-    if kind == "cmp":
-        n.ops = [CMP[type(n.ops[0])]()]
-    elif kind == "dropconst":
-        _replace(func, n, n.left)
-    elif kind == "swapop":
-        n.op = ast.Sub() if isinstance(n.op, ast.Add) else ast.Add()
-    elif kind == "dropbool":
-        _replace(func, n, n.values[0])
-    elif kind == "slice+1":
-        b = getattr(n, spec[2])
-        setattr(n, spec[2], ast.BinOp(left=b, op=ast.Add(), right=ast.Constant(value=1)))
-    elif kind in ("range-1", "range+1"):
-        k = 0 if len(n.args) == 1 else 1
-        n.args[k] = ast.BinOp(left=n.args[k], op=ast.Sub() if kind == "range-1" else ast.Add(), right=ast.Constant(value=1))
-    elif kind == "delete":
-        _delete(func, n)
-    elif kind == "flipbool":
-        n.value = ast.Constant(value=not n.value.value)
-    elif kind == "swapidx":
-        e = n.slice.elts
-        e[0], e[1] = e[1], e[0]
-    ast.fix_missing_locations(func)
-
-
-def _replace(root, old, new):
-    for p in ast.walk(root):
-        for f, v in ast.iter_fields(p):
-            if v is old:
-                setattr(p, f, new)
-                return
-            if isinstance(v, list):
-                for i, x in enumerate(v):
-                    if x is old:
-                        v[i] = new
-                        return
-
-
-def _delete(root, stmt):
-    for p in ast.walk(root):
-        for f in ("body", "orelse", "finalbody"):
-            b = getattr(p, f, None)
-            if isinstance(b, list) and stmt in b:
-                i = b.index(stmt)
-                if len(b) == 1:
-                    b[i] = ast.Pass()
-                else:
-                    del b[i]
-                return
-
-
-def run_one(args):
-    pid, relpath, fname, spec, desc = args
-    tmp = tempfile.mkdtemp(prefix="mutsweep-")
-    try:
-        shutil.copytree(os.path.join(REPO, "tangermeme"), os.path.join(tmp, "tangermeme"), ignore=shutil.ignore_patterns("__pycache__"))
-        path = os.path.join(tmp, relpath)
-        src = open(path).read()
-        tree = ast.parse(src)
-        f = [n for n in tree.body if isinstance(n, ast.FunctionDef) and n.name == fname][0]
-        apply(f, spec)
-        try:
-            new = ast.unparse(tree)
-            compile(new, path, "exec")
-        except Exception as e:
-            return desc, "INVALID", str(e)[:80]
-        if ast.dump(ast.parse(new)) == ast.dump(ast.parse(src)):
-            return desc, "INVALID", "no change"
-        open(path, "w").write(new)
-        r = subprocess.run([os.path.join(VERIF, "check"), pid, "--repo", tmp, "--no-evidence"], capture_output=True, text=True, timeout=900)
-        if r.returncode == 1:
-            rules = sorted({l.split("rule=")[1].split()[0] for l in r.stdout.split("\n") if l.strip().startswith("rule=")})
-            return desc, "VIOLATION", ",".join(rules)
-        if r.returncode == 0:
-            return desc, "SILENT", ""
-        return desc, "ERROR", "; ".join(l[:120] for l in r.stdout.split("\n") if l.startswith("ANALYSIS-ERROR"))[:240]
-    finally:
-        shutil.rmtree(tmp, ignore_errors=True)
-
-
-def main():
-    pid = sys.argv[1]
-    funcs, jobs, limit, jout = [], 16, None, None
-    a = sys.argv[2:]
-    while a:
-        x = a.pop(0)
-        if x == "--funcs":
-            funcs = a.pop(0).split(",")
-        elif x == "--jobs":
-            jobs = int(a.pop(0))
-        elif x == "--limit":
-            limit = int(a.pop(0))
-        elif x == "--json":
-            jout = a.pop(0)
-    tasks = []
-    for q in funcs:
-        mod, fname = q.rsplit(".", 1)
-        rel = os.path.join("tangermeme", *mod.split(".")) + ".py"
-        tree = ast.parse(open(os.path.join(REPO, rel)).read())
-        f = [n for n in tree.body if isinstance(n, ast.FunctionDef) and n.name == fname]
-        if not f:
-            print("no such function", q)
-            continue
-        for desc, spec in mutants_of(f[0]):
-            tasks.append((pid, rel, fname, spec, "%s: %s" % (q, desc)))
-    if limit:
-        tasks = tasks[:limit]
-    res = []
-    with ProcessPoolExecutor(max_workers=jobs) as ex:
-        for r in ex.map(run_one, tasks):
-            res.append(r)
-    counts = {}
-    for d, s, x in res:
-        counts[s] = counts.get(s, 0) + 1
-    print("mutsweep %s: %d mutants -> %s" % (pid, len(res), counts))
-    for d, s, x in res:
-        if s == "SILENT":
-            print("  SILENT  ", d)
-    for d, s, x in res:
-        if s == "ERROR":
-            print("  ERROR   ", d, "|", x[:100])
-    if jout:
-        json.dump({"property": pid, "counts": counts, "results": res}, open(jout, "w"), indent=1)
-
-
-if __name__ == "__main__":
-    main()
+"""Mutation sweep (development aid): see tmverif/mutate.py.  usage: tools/mutsweep.py <PID> --funcs mod.func,... [--jobs N] [--limit N] [--json out]"""
+import os, sys
+sys.path.insert(0, os.path.dirname(os.path.dirname(os.path.abspath(__file__))))
+from tmverif.mutate import main
+main()
